@@ -28,6 +28,7 @@ pub fn plain_steps() -> Vec<Step> {
         Step::Indices(vec![AIdx::Slice(Idx::Last(0), Idx::Last(1))]),
         Step::Indices(vec![AIdx::Slice(Idx::Last(-1), Idx::Last(0))]),
         Step::Indices(vec![AIdx::Slice(Idx::N(-1), Idx::N(0))]),
+        Step::Indices(vec![AIdx::Slice(Idx::N(0), Idx::Last(-1))]),
     ]
 }
 
@@ -60,6 +61,7 @@ pub fn filter_operands() -> Vec<Expr> {
         p(vec![Step::Root]),
         p(vec![Step::Root, Step::Dot("a".into())]),
         p(vec![Step::Root, Step::Dot("b".into()), Step::BracketWild]),
+        p(vec![Step::Current, Step::DotWild]),
     ];
     v.extend(lits());
     v
